@@ -10,10 +10,11 @@
        - len(current_line_before_cursor) <= r <= len(current_line_after_cursor)
    where (C02_views) these two parts contain no newline and are delimited by
    newlines / the ends of the text. *)
-From Coq Require Import ZArith List Bool.
+From Coq Require Import ZArith List Bool Sorted.
 From PTK Require Import Lib.Sx Lib.Py Gen.Whitespace Gen.C02_Patterns Model.Document Model.C02_DocQueries
   Proofs.C02_Base Proofs.C02_Coords Proofs.C02_Lines Proofs.C02_Find Proofs.C02_Brackets
-  Proofs.C02_Words Proofs.C02_Patterns.
+  Proofs.C02_Words Proofs.C02_WordsExact Proofs.C02_FindExact Proofs.C02_Paragraphs
+  Proofs.C02_LastNonBlank Proofs.C02_Boundaries Proofs.C02_Patterns.
 Import ListNotations.
 Open Scope Z_scope.
 
@@ -215,7 +216,7 @@ Print Assumptions C02_start_end_of_document.
 (* last_non_blank_of_current_line_position (after fix 1019c4b): always on the
    current line and in bounds; strictly before the end of a line that has a
    non-blank character; the line start on a blank line.
-   Not proved: that the target character is the LAST non-blank one (oracle). *)
+   (C02_last_non_blank_lands below: it is the LAST non-blank one.) *)
 Theorem C02_last_non_blank : forall d, valid d ->
   - len (current_line_before_cursor d) <= last_non_blank_of_current_line_position d
     <= len (current_line_after_cursor d) /\
@@ -226,6 +227,18 @@ Theorem C02_last_non_blank : forall d, valid d ->
    last_non_blank_of_current_line_position d = - len (current_line_before_cursor d)).
 Proof. exact last_non_blank_same_line. Qed.
 Print Assumptions C02_last_non_blank.
+
+(* ... and on a line with a non-blank character the target is THE last
+   non-blank character: column L of the current line holds a non-blank and
+   everything after it on the line is blank *)
+Theorem C02_last_non_blank_lands : forall d,
+  valid d -> rstrip_by is_space (current_line d) <> [] ->
+  let L := cursor_position_col d + last_non_blank_of_current_line_position d in
+  0 <= L < len (current_line d) /\
+  (exists x, nth_error (current_line d) (Z.to_nat L) = Some x /\ is_space x = false) /\
+  forallb is_space (skipn (Z.to_nat (L + 1)) (current_line d)) = true.
+Proof. exact last_non_blank_lands. Qed.
+Print Assumptions C02_last_non_blank_lands.
 
 (* the function as it stood before the fix (finding C02-F1 = DESIGN F9, repaired
    in /repo by 1019c4b) left the text, resp. the line, on a blank line *)
@@ -254,6 +267,58 @@ Proof.
   split; intros r; [now apply start_of_paragraph_in_bounds|now apply end_of_paragraph_in_bounds].
 Qed.
 Print Assumptions C02_paragraph_in_bounds.
+
+(* where the paragraph motions land (counts >= 1): on the document start/end
+   when no blank line lies above/below; otherwise at the blank row the line
+   search returns, at the cursor's column clipped to that row, +1 / -1 unless
+   before/after is set.  [count_blank] counts blank lines. *)
+Theorem C02_start_of_paragraph_lands : forall d count before r,
+  valid d -> 1 <= count -> start_of_paragraph d count before = Some r ->
+  let row := cursor_position_row d in
+  let col := cursor_position_col d in
+  (count_blank (firstn (Z.to_nat row) (lines d)) = 0 /\ dcur d + r = 0) \/
+  (exists k,
+     find_previous_matching_line d count = Some (- k) /\ 1 <= k <= row /\
+     blank_line (nth (Z.to_nat (row - k)) (lines d) []) = true /\
+     dcur d + r = translate_row_col_to_index d (row - k) col + (if before then 0 else 1) /\
+     translate_index_to_position d (translate_row_col_to_index d (row - k) col) =
+     (row - k, Z.min col (len (nth (Z.to_nat (row - k)) (lines d) [])))).
+Proof. exact C02p_start_of_paragraph_lands. Qed.
+Print Assumptions C02_start_of_paragraph_lands.
+
+Theorem C02_end_of_paragraph_lands : forall d count after r,
+  valid d -> 1 <= count -> end_of_paragraph d count after = Some r ->
+  let row := cursor_position_row d in
+  let col := cursor_position_col d in
+  (count_blank (skipn (Z.to_nat (row + 1)) (lines d)) = 0 /\ dcur d + r = len (dtext d)) \/
+  (exists li,
+     find_next_matching_line d count = Some li /\ 1 <= li /\ row + li < line_count d /\
+     blank_line (nth (Z.to_nat (row + li)) (lines d) []) = true /\
+     dcur d + r = translate_row_col_to_index d (row + li) col - (if after then 0 else 1) /\
+     translate_index_to_position d (translate_row_col_to_index d (row + li) col) =
+     (row + li, Z.min col (len (nth (Z.to_nat (row + li)) (lines d) [])))).
+Proof. exact C02p_end_of_paragraph_lands. Qed.
+Print Assumptions C02_end_of_paragraph_lands.
+
+(* ... and which blank row that is: the count-th blank row above / below the
+   cursor row, or the farthest one when there are fewer than count *)
+Theorem C02_matching_line_is_count_th : forall d count li, valid d -> 1 <= count ->
+  let row := cursor_position_row d in
+  (find_previous_matching_line d count = Some li ->
+   exists k, li = - k /\ 1 <= k <= row /\
+     blank_line (nth (Z.to_nat (row - k)) (lines d) []) = true /\
+     let b := count_blank (firstn (Z.to_nat k) (skipn (Z.to_nat (row - k)) (lines d))) in
+     b <= count /\ (b = count \/ count_blank (firstn (Z.to_nat (row - k)) (lines d)) = 0)) /\
+  (find_next_matching_line d count = Some li ->
+   1 <= li /\ row + li < line_count d /\
+   blank_line (nth (Z.to_nat (row + li)) (lines d) []) = true /\
+   let b := count_blank (firstn (Z.to_nat li) (skipn (Z.to_nat (row + 1)) (lines d))) in
+   b <= count /\ (b = count \/ count_blank (skipn (Z.to_nat (row + li + 1)) (lines d)) = 0)).
+Proof.
+  intros d count li Hv Hc. split; intros H;
+    [exact (C02p_previous_matching_line d count li Hv Hc H)|exact (C02p_next_matching_line d count li Hv Hc H)].
+Qed.
+Print Assumptions C02_matching_line_is_count_th.
 
 (* ====================================================================== *)
 (* 3. find / find_backwards / find_all, for ANY character equivalence ceq
@@ -304,6 +369,51 @@ Print Assumptions C02_find_all_lands.
 Example C02_find_defined : dfind ceq_exact (mkdoc [97; 98; 97; 98] 0) [97; 98] false false 1 = Some 2.
 Proof. vm_compute. reflexivity. Qed.
 Print Assumptions C02_find_defined.
+
+(* Exactly which occurrence.  [greedy P step from l]: l is THE leftmost
+   non-overlapping enumeration of the positions satisfying P from [from] on
+   (head = least such k, next = least k >= head + step, nothing after the
+   last); [occ ceq sub s k]: sub occurs in s at k and fits; step = max(1, len sub).
+   The scanner for re.finditer(re.escape(sub), s) returns that list (it is
+   unique), so find returns its count-th element and None iff it is shorter. *)
+Theorem C02_find_iter_is_greedy : forall ceq sub s,
+  greedy (occ ceq sub s) (fstep sub) 0 (find_iter ceq sub s) /\
+  (forall l, greedy (occ ceq sub s) (fstep sub) 0 l -> find_iter ceq sub s = l).
+Proof. intros. split; [apply find_iter_greedy|apply find_iter_is_the_greedy_list]. Qed.
+Print Assumptions C02_find_iter_is_greedy.
+
+Theorem C02_find_exact : forall ceq d sub il ic count l,
+  greedy (occ ceq sub (find_scanned d il ic)) (fstep sub) 0 l ->
+  dfind ceq d sub il ic count =
+  if negb ic && (len (if il then current_line_after_cursor d else text_after_cursor d) =? 0) then None
+  else option_map (fun p => if ic then p else p + 1) (nth_match l count).
+Proof. exact find_exact. Qed.
+Print Assumptions C02_find_exact.
+
+(* the text before the cursor is scanned mirrored: occurrences are taken
+   greedily from the right (occ_rev: an occurrence of the mirrored needle at p in
+   the mirrored text is an occurrence at len - p - len sub) *)
+Theorem C02_find_backwards_exact : forall ceq d sub (il : bool) count l,
+  let before := if il then current_line_before_cursor d else text_before_cursor d in
+  greedy (occ ceq (rev sub) (rev before)) (fstep sub) 0 l ->
+  dfind_backwards ceq d sub il count = option_map (fun p => - p - len sub) (nth_match l count).
+Proof. exact find_backwards_exact. Qed.
+Print Assumptions C02_find_backwards_exact.
+
+Theorem C02_occurrence_mirror : forall ceq sub s p,
+  occ ceq (rev sub) (rev s) p <-> occ ceq sub s (len s - p - len sub).
+Proof. exact occ_rev. Qed.
+Print Assumptions C02_occurrence_mirror.
+
+(* find_all is complete: strictly increasing, every member is an occurrence,
+   and every occurrence is listed or overlaps a listed one *)
+Theorem C02_find_all_exact : forall ceq d sub,
+  StronglySorted Z.lt (dfind_all ceq d sub) /\
+  (forall m, In m (dfind_all ceq d sub) -> occ ceq sub (dtext d) m) /\
+  (forall k, occ ceq sub (dtext d) k ->
+     exists m, In m (dfind_all ceq d sub) /\ m <= k < m + fstep sub).
+Proof. exact find_all_exact. Qed.
+Print Assumptions C02_find_all_exact.
 
 (* ====================================================================== *)
 (* 4. Brackets *)
@@ -461,6 +571,128 @@ Theorem C02_previous_word_ending_lands_partial : forall d count WORD r,
   clsat (word_cls WORD) (dtext d) (dcur d + r) <> clsat (word_cls WORD) (dtext d) (dcur d + r - 1).
 Proof. exact C02w_previous_word_ending_lands_partial. Qed.
 Print Assumptions C02_previous_word_ending_lands_partial.
+
+(* Exactly which run boundary (counts >= 1).  [word_start cls t j]: position j
+   holds a non-blank whose predecessor has another class; [word_end cls t j]: j
+   is one past such a run's last character; [enumerates P l]: l is THE strictly
+   increasing list of all j with P j; [pick l count] its count-th element.
+   The scanner's run starts/ends are exactly all word starts/ends: *)
+Theorem C02_runs_are_all_words : forall cls s,
+  enumerates (word_start cls s) (map fst (runs cls s)) /\
+  enumerates (word_end cls s) (map snd (runs cls s)) /\
+  (forall j, 0 <= j < len s -> clsat cls s j <> 0 ->
+     exists st en, In (st, en) (runs cls s) /\ st <= j < en).
+Proof.
+  intros cls s. split; [apply C02x_run_starts|]. split; [apply C02x_run_ends|].
+  intros j. apply C02x_runs_cover.
+Qed.
+Print Assumptions C02_runs_are_all_words.
+
+(* the count-th word start after the cursor; None iff there are fewer *)
+Theorem C02_next_word_beginning_exact : forall d count WORD,
+  valid d -> 1 <= count ->
+  forall l, enumerates (fun j => dcur d < j /\ word_start (word_cls WORD) (dtext d) j) l ->
+    find_next_word_beginning d count WORD = option_map (fun j => j - dcur d) (pick l count) /\
+    (find_next_word_beginning d count WORD = None <-> len l < count).
+Proof.
+  intros d c W Hv Hc l Hl. split; [now apply C02x_next_word_beginning_exact|now apply C02x_next_word_beginning_none].
+Qed.
+Print Assumptions C02_next_word_beginning_exact.
+
+(* the count-th word end beyond the cursor (beyond cursor + 1 unless
+   include_current_position) *)
+Theorem C02_next_word_ending_exact : forall d (incl : bool) count WORD,
+  valid d -> 1 <= count ->
+  forall l, enumerates (fun j => (if incl then dcur d else dcur d + 1) < j /\
+                                 word_end (word_cls WORD) (dtext d) j) l ->
+    find_next_word_ending d incl count WORD = option_map (fun j => j - dcur d) (pick l count).
+Proof. exact C02x_next_word_ending_exact. Qed.
+Print Assumptions C02_next_word_ending_exact.
+
+(* the count-th word start before the cursor, counting backwards *)
+Theorem C02_previous_word_beginning_exact : forall d count WORD,
+  valid d -> 1 <= count ->
+  forall l, enumerates (fun j => j < dcur d /\ word_start (word_cls WORD) (dtext d) j) l ->
+    find_previous_word_beginning d count WORD = option_map (fun j => j - dcur d) (pick (rev l) count) /\
+    find_start_of_previous_word d count WORD = option_map (fun j => j - dcur d) (pick (rev l) count).
+Proof.
+  intros d c W Hv Hc l Hl. split; [now apply C02x_previous_word_beginning_exact|now apply C02x_start_of_previous_word_exact].
+Qed.
+Print Assumptions C02_previous_word_beginning_exact.
+
+(* the count-th word end at or before the cursor, counting backwards - when the
+   cursor is not at the end of the text (known finding C02-F2 otherwise) *)
+Theorem C02_previous_word_ending_exact_partial : forall d count WORD,
+  valid d -> 1 <= count -> dcur d < len (dtext d) ->
+  forall l, enumerates (fun j => j <= dcur d /\ word_end (word_cls WORD) (dtext d) j) l ->
+    find_previous_word_ending d count WORD = option_map (fun j => j - dcur d) (pick (rev l) count).
+Proof. exact C02x_previous_word_ending_exact_partial. Qed.
+Print Assumptions C02_previous_word_ending_exact_partial.
+
+Theorem C02_enumeration_unique : forall P l1 l2, enumerates P l1 -> enumerates P l2 -> l1 = l2.
+Proof. exact enumerates_unique. Qed.
+Print Assumptions C02_enumeration_unique.
+
+(* get_word_before_cursor: empty, or exactly the characters from the start of
+   the previous word to the cursor *)
+Theorem C02_word_before_cursor : forall d WORD, valid d ->
+  get_word_before_cursor d WORD = [] \/
+  exists r, find_start_of_previous_word d 1 WORD = Some r /\ r < 0 /\ 0 <= dcur d + r /\
+    get_word_before_cursor d WORD =
+    firstn (Z.to_nat (- r)) (skipn (Z.to_nat (dcur d + r)) (dtext d)).
+Proof. exact word_before_cursor_spec. Qed.
+Print Assumptions C02_word_before_cursor.
+
+(* find_boundaries_of_current_word, no whitespace flags: the returned span is
+   exactly ONE maximal run of one non-blank class around the cursor (class
+   purity + maximality on both sides); (0,0) only when the character under the
+   cursor is blank / a newline / absent *)
+Theorem C02_word_boundaries_is_run : forall d WORD s e,
+  valid d -> find_boundaries_of_current_word d WORD false false = (s, e) ->
+  ((s, e) <> (0, 0) -> is_run (word_cls WORD) (dtext d) (dcur d + s) (dcur d + e)) /\
+  ((s, e) = (0, 0) -> clsat (word_cls WORD) (dtext d) (dcur d) = 0).
+Proof.
+  intros d W s e Hv H. split; [now apply C02y_boundaries_is_run|].
+  intros He. injection He as -> ->. now apply (C02y_boundaries_none d W).
+Qed.
+Print Assumptions C02_word_boundaries_is_run.
+
+(* include_trailing_whitespace: same start, the end is extended over the
+   blanks that follow the word on the same line, maximally *)
+Theorem C02_word_boundaries_trailing_ws : forall d WORD lead s e,
+  valid d -> find_boundaries_of_current_word d WORD lead true = (s, e) ->
+  exists e0,
+    find_boundaries_of_current_word d WORD lead false = (s, e0) /\
+    e0 <= e /\
+    (forall j, dcur d + e0 <= j < dcur d + e ->
+       exists x, nth_error (dtext d) (Z.to_nat j) = Some x /\ re_space x = true /\ x <> NL) /\
+    (e0 = 0 -> e = 0) /\
+    (forall x, index (dtext d) (dcur d + e) = Some x -> e0 <> 0 -> re_space x = false \/ x = NL).
+Proof. exact C02y_boundaries_trailing_ws. Qed.
+Print Assumptions C02_word_boundaries_trailing_ws.
+
+(* include_leading_whitespace: same end, the start is extended over the blanks
+   that precede the word on the same line, maximally *)
+Theorem C02_word_boundaries_leading_ws : forall d WORD trail s e,
+  valid d -> find_boundaries_of_current_word d WORD true trail = (s, e) ->
+  exists s0,
+    find_boundaries_of_current_word d WORD false trail = (s0, e) /\
+    s <= s0 <= 0 /\
+    (forall j, dcur d + s <= j < dcur d + s0 ->
+       exists x, nth_error (dtext d) (Z.to_nat j) = Some x /\ re_space x = true /\ x <> NL) /\
+    (s0 = 0 -> s = 0) /\
+    (forall x, 0 <= dcur d + s - 1 -> nth_error (dtext d) (Z.to_nat (dcur d + s - 1)) = Some x ->
+       s0 <> 0 -> re_space x = false \/ x = NL).
+Proof. exact C02y_boundaries_leading_ws. Qed.
+Print Assumptions C02_word_boundaries_leading_ws.
+
+(* get_word_under_cursor is exactly the characters of that run *)
+Theorem C02_word_under_cursor : forall d WORD, valid d ->
+  let '(s, e) := find_boundaries_of_current_word d WORD false false in
+  get_word_under_cursor d WORD =
+  firstn (Z.to_nat (e - s)) (skipn (Z.to_nat (dcur d + s)) (dtext d)).
+Proof. exact C02y_word_under_cursor. Qed.
+Print Assumptions C02_word_under_cursor.
 
 Example C02_word_motion_defined :
   find_next_word_beginning (mkdoc [97; 98; 32; 99] 0) 1 false = Some 3.
